@@ -1,4 +1,5 @@
 import G3D.Props.C11
+import G3D.Props.Classes
 #print axioms G3D.Props.C11.cosSq_in_range
 #print axioms G3D.Props.C11.acute_angle_range
 #print axioms G3D.Props.C11.line_plane_range
@@ -11,3 +12,4 @@ import G3D.Props.C11
 #print axioms G3D.Props.C11.angle_dispatch
 #print axioms G3D.Props.C11.parallel_dispatch
 #print axioms G3D.Props.C11.orthogonal_dispatch
+#print axioms G3D.Props.Classes.geobody_forwards
